@@ -280,7 +280,7 @@ def check(repo):
     # connector awaits create_service with (sid, websocket)
     hnd = repo.func(F.SRV_CONN, "handler")
     okc = any(isinstance(aw, ast.Await) and isinstance(aw.value, ast.Call) and isinstance(aw.value.func, ast.Attribute)
-              and aw.value.func.attr == "create_service" and len(aw.value.args) == 2 for aw in ast.walk(hnd.node))
+              and aw.value.func.attr == "create_service" and len(aw.value.args) + len(aw.value.keywords) == 2 for aw in ast.walk(hnd.node))
     r5.require(okc, hnd, "connector awaits create_service", "connector.handler no longer awaits create_service(sid, websocket)")
     # one manager instance shared by all connections (module level)
     cm = repo.module(F.SRV_CONN)
